@@ -4,6 +4,7 @@ neutralises it and the uniqueness test sees it) and ESCAPE-INJECTION (the transl
 characters where the target dialect defines one)."""
 import re
 from msa import guards as G
+from msa import ip as IP
 from msa import pair as P
 from msa import ast as A
 from msa import cfg as C
@@ -60,10 +61,150 @@ def token_sets(fx):
     return f, always, first
 
 
+def _loop_of(f, node):
+    """(header block, body) of the innermost natural loop containing node"""
+    p = P.pos_of(f, node)
+    best = None
+    for (h, body) in C.natural_loops(f):
+        if p and p[0] in body and (best is None or len(body) < len(best[1])):
+            best = (h, body)
+    return best
+
+
+def _reaches_within_iteration(f, loop, a, b):
+    """node a can be followed by node b without going through the loop header in between (same iteration)"""
+    pa, pb = P.pos_of(f, a), P.pos_of(f, b)
+    if pa is None or pb is None:
+        return False
+    if pa[0] == pb[0] and pa[1] < pb[1]:
+        return True
+    (h, body) = loop
+    seen, st = set(), [s_ for s_ in f.blocks[pa[0]].succ if s_ is not None and s_ >= 0]
+    while st:
+        x = st.pop()
+        if x in seen or x == h or x not in body:
+            continue
+        seen.add(x)
+        if x == pb[0]:
+            return True
+        st.extend(s_ for s_ in f.blocks[x].succ if s_ is not None and s_ >= 0)
+    return False
+
+
+def first_position_rule(res, fx):
+    """IsRegexToken(c, isFirst): the position class passed for a character is that of the character — nothing that ends "first-ness" (advancing the cursor that is compared with the start,
+    clearing the is-first flag) happens between the start of the iteration and the call."""
+    res.rule('FIRST-POSITION', 'in every scanner that classifies characters with IsRegexToken(c, first), the second argument still describes the position of c when the call is made: within one '
+                               'iteration neither the cursor it compares with the start nor the flag it reads is written before the call', floor=2)
+    n = 0
+    for f in sorted((g for g in fx.funcs.values() if g.full and g.file.endswith('StringMatcher.cpp')), key=lambda g: g.line):
+        for c in f.walk():
+            if not (c.is_call() and (c.get('q') or '') == 'muscle::IsRegexToken' and len(c.args()) >= 2):
+                continue
+            loop = _loop_of(f, c)
+            if loop is None:
+                continue
+            arg = G.local_init(f, c.args()[1])
+            state = set(x.get('d') for x in A.walk_through_locals(f, c.args()[1]) if x['k'] == 'DeclRefExpr' and x.get('d') is not None)
+            state -= set(p_['d'] for p_ in f.params)          # the start of the string is a parameter (or a local that is never written in the loop: no write will be found)
+            if not state:
+                continue
+            n += 1
+            bad = None
+            for w in f.walk():
+                tgt = None
+                if w['k'] == 'UnaryOperator' and w.get('op') in ('post++', 'pre++', 'post--', 'pre--'):
+                    tgt = A.strip_casts(w['ch'][0])
+                elif w['k'] in ('BinaryOperator', 'CompoundAssignOperator') and w.get('op') in A.ASSIGN_OPS:
+                    tgt = A.strip_casts(w['ch'][0])
+                if tgt is None or tgt['k'] != 'DeclRefExpr' or tgt.get('d') not in state:
+                    continue
+                pw = P.pos_of(f, w)
+                if pw is None or pw[0] not in loop[1]:
+                    continue
+                if _reaches_within_iteration(f, loop, w, c):
+                    bad = w
+            res.ob('FIRST-POSITION', f.where(c), '%s: IsRegexToken(c, %s) is evaluated before the position state is advanced' % (f.q.split('::')[-1], A.strip_casts(c.args()[1]).text(30)), bad is None, function=f.q,
+                   key='FIRST-POSITION|%s' % f.q,
+                   message='%s writes `%s` (line %s) before it calls IsRegexToken(c, %s) in the same iteration: the "first character" argument no longer describes the character being classified, so '
+                           'characters that are special only in first position (~ < `) are never (or always) treated as first — EscapeRegexTokens("~foo") stays "~foo", which matches everything except foo'
+                           % (f.q, bad.text(30) if bad is not None else '', bad.get('l') if bad is not None else '', A.strip_casts(c.args()[1]).text(30)))
+    if n < 2:
+        raise AnalysisBroken('FIRST-POSITION: only %d position-dependent IsRegexToken calls found' % n)
+
+
+def per_iteration_rule(res, fx):
+    """what belongs to one clause / one candidate is not carried over to the next: (a) the bounds of each numeric range added to _ranges are defined in the iteration that adds it;
+    (b) a StringTokenizer consumed inside a loop over candidates is constructed inside that loop (it is a single-pass cursor), unless the loop is the tokenizer's own drain loop."""
+    res.rule('PER-ITERATION', '(a) every local that feeds `_ranges.AddTail(IDRange(…))` in StringMatcher::SetPattern is (re)defined on every path from the head of the clause loop to that call; '
+                              '(b) in the matcher files a StringTokenizer that is consumed in a loop whose continuation does not depend on it is declared inside that loop', floor=2)
+    n = 0
+    f = fx.fn1(SM + '::SetPattern')
+    for g in IP.scope(fx, f, r'^muscle::StringMatcher::|^muscle::\w+$'):
+        for c in g.walk():
+            if c['k'] == 'CXXMemberCallExpr' and (c.get('q') or '').endswith('::AddTail') and c.receiver() is not None and A.strip_casts(c.receiver()).get('n') == '_ranges':
+                loop = _loop_of(g, c)
+                if loop is None:
+                    continue
+                n += 1
+                used = set(x.get('d') for a in c.args() for x in a.walk() if x['k'] == 'DeclRefExpr' and x.get('d') is not None and x.get('dk') in (None, 'Var', 'ParmVar'))
+                used -= set(p_['d'] for p_ in g.params)
+                bad = None
+                for d in sorted(used):
+                    defs = [v for v in g.walk() if (v['k'] == 'VarDecl' and v.get('d') == d) or
+                            (v['k'] in ('BinaryOperator', 'CompoundAssignOperator') and v.get('op') == '=' and A.strip_casts(v['ch'][0]).get('d') == d)]
+                    indefs = [v for v in defs if P.pos_of(g, v) and P.pos_of(g, v)[0] in loop[1]]
+                    # every path from the loop header to the call passes a definition made in this iteration
+                    pts = set(P.pos_of(g, v) for v in indefs)
+                    ok = bool(pts) and C.must_pass(g, (loop[0], -1), pts | set(), stop_at_exit=True)[0] if False else None
+                    # must_pass is entry->exit; here: header -> call.  Use path search that avoids the definitions.
+                    pc = P.pos_of(g, c)
+                    avoid = set(pts)
+                    reach = C.can_reach(g, (loop[0], -1), set([pc]), avoid_points=avoid) if pc else True
+                    if reach:
+                        bad = (d, next((x.get('n') for x in g.walk() if x['k'] in ('VarDecl', 'DeclRefExpr') and x.get('d') == d), '?'))
+                res.ob('PER-ITERATION', g.where(c), '%s: the bounds of each range clause are defined in the iteration that adds it' % g.q.split('::')[-1], bad is None, function=g.q,
+                       key='PER-ITERATION|%s|range-bounds' % g.q,
+                       message='%s adds IDRange(…) from `%s`, which can reach the call with the value left by the previous clause: in `<10-20,30->` the open end of the second clause inherits 20 '
+                               'instead of "no limit", so the list matches a different set of numbers than its syntax denotes' % (g.q, bad[1] if bad else ''))
+    for g in sorted((g for g in fx.funcs.values() if g.full and re.search(r'regex/(StringMatcher|PathMatcher|SegmentedStringMatcher)\.cpp$', g.file)), key=lambda g: (g.file, g.line)):
+        for v in g.walk():
+            if v['k'] != 'VarDecl' or 'StringTokenizer' not in v.type() or v.type().rstrip().endswith(('*', '&')):
+                continue
+            uses = [x for x in g.walk() if x['k'] == 'DeclRefExpr' and x.get('d') == v['d']]
+            consumes = [x for x in uses if x.parent is not None and x.parent.is_call()]
+            if not consumes:
+                continue
+            n += 1
+            bad = None
+            vp = P.pos_of(g, v)
+            for x in consumes:
+                for (h, body) in C.natural_loops(g):
+                    px = P.pos_of(g, x)
+                    if px is None or px[0] not in body or (vp is not None and vp[0] in body):
+                        continue
+                    # the loop contains the consumption but not the declaration: fine only if the loop's own condition(s) read the tokenizer (its drain loop)
+                    conds = [g.nodes[g.blocks[b].cond] for b in body | set([h]) if g.blocks[b].cond is not None and g.blocks[b].cond in g.nodes and any(s_ not in body for s_ in g.blocks[b].succ if s_ is not None and s_ >= 0)]
+                    drives = any(y['k'] == 'DeclRefExpr' and y.get('d') == v['d'] for cnd in conds for y in A.walk_through_locals(g, cnd))
+                    if not drives:
+                        # a local assigned from the tokenizer inside the loop and tested by an exit condition also counts (while ((t = tok()) != NULL))
+                        asg = set(A.strip_casts(a['ch'][0]).get('d') for a in g.walk() if a['k'] == 'BinaryOperator' and a.get('op') == '=' and any(y['k'] == 'DeclRefExpr' and y.get('d') == v['d'] for y in a['ch'][1].walk()))
+                        drives = any(y['k'] == 'DeclRefExpr' and y.get('d') in asg for cnd in conds for y in cnd.walk())
+                    if not drives:
+                        bad = (x, h)
+            res.ob('PER-ITERATION', g.where(v), '%s: tokenizer `%s` is not shared between the iterations of a loop over candidates' % (g.q.split('::')[-1], v.get('n')), bad is None, function=g.q,
+                   key='PER-ITERATION|%s|tokenizer:%s' % (g.q, v.get('l')),
+                   message='%s declares the StringTokenizer `%s` outside a loop that consumes it at line %s and whose continuation does not depend on it: the tokenizer is a single-pass cursor, so every '
+                           'iteration after the first sees the remaining (or no) tokens — with two patterns of equal depth, MatchesPath() rejects a path the second pattern matches'
+                           % (g.q, v.get('n'), bad[0].get('l') if bad else ''))
+    if n < 2:
+        raise AnalysisBroken('PER-ITERATION: only %d instances found' % n)
+
+
 def run(res, tier):
     from . import sm_state
-    fx = common.load_units(res, ['regex/StringMatcher.cpp', 'regex/SegmentedStringMatcher.cpp'],
-                           fn_regex=r'^muscle::(StringMatcher::|SegmentedStringMatcher::|IsRegexToken|EscapeRegexTokens|RemoveEscapeChars|HasRegexTokens|CanWildcardStringMatchMultipleValues)')
+    fx = common.load_units(res, ['regex/StringMatcher.cpp', 'regex/SegmentedStringMatcher.cpp', 'regex/PathMatcher.cpp'],
+                           fn_regex=r'^muscle::(StringMatcher::|SegmentedStringMatcher::|PathMatcher::|IsRegexToken|EscapeRegexTokens|RemoveEscapeChars|HasRegexTokens|CanWildcardStringMatchMultipleValues)')
     res.functions_analysed = sum(1 for f in fx.funcs.values() if f.full)
     tf, always, first = token_sets(fx)
     res.rule('META-TABLE', 'characters that SetPattern gives a special meaning in position 0 or anywhere, and the POSIX-ERE metacharacters it passes to the regex engine unescaped, are all reported by '
@@ -247,6 +388,8 @@ def run(res, tier):
            message='StringMatcher::Match has a return that bypasses the negation: for a subject inside one of the numeric ranges `~<5-10>` matches exactly like `<5-10>`')
     sm_state.regex_valid_rule(res, fx)
     sm_state.ranges_reset_rule(res, fx)
+    first_position_rule(res, fx)
+    per_iteration_rule(res, fx)
     res.explanation = ('Static decision of two table-agreement clauses of C15: the special-character tables are extracted from the resolved AST (comparisons against str[0], the cases of the translation switch and '
                        'whether they add an escaping backslash, the cases of IsRegexToken and what each returns) and compared with each other and with the fixed POSIX-ERE metacharacter set; the escape branch of the '
                        'translator is required to drop the backslash for the characters where GNU regex defines a backslash operator. Matching semantics in general are not decided.')
